@@ -274,6 +274,13 @@ func c11Round(phaseIdx int) {
 			verifrt.Assert(post.UpdateRevision == pre.UpdateRevision && post.StableRevision == pre.StableRevision, "C10.executor.unhandledRollbackStaysVisible")
 		}
 	}
+	// ---- C06: a controller call that failed is retried: the round reports the error or asks to be called again.  (A failed
+	// write changes nothing in the cluster, so no watch event follows; status-only updates of the BatchRelease do not
+	// wake the reconciler either.)
+	if executed && ctrl.called("Finalize") && ctrl.finalizeErr {
+		verifrt.Cover("finalize-failed")
+		verifrt.Assert(err != nil || result.Requeue || result.RequeueAfter > 0, "C06.executor.failedFinalizeIsRetried")
+	}
 	// a phase/state change decided while syncing is persisted before anything acts on it
 	if !executed {
 		verifrt.Assert(!ctrl.called("UpgradeBatch") && !ctrl.called("Finalize") && !ctrl.called("Initialize") && !ctrl.called("Ensure"), "C06.executor.persistBeforeAct")
@@ -295,6 +302,7 @@ func VerifC01_ExecutorGate() { c11Round(2) }
 // persisted (obligation C06.executor.persistBeforeAct of the executor round, run under C06 too).
 func VerifC06_ExecutorPersistsBeforeActing_Progressing() { VerifC11_ExecutorRound_Progressing() }
 func VerifC06_ExecutorPersistsBeforeActing_Preparing()   { VerifC11_ExecutorRound_Preparing() }
+func VerifC06_ExecutorRetriesAFailedFinalize()           { VerifC11_ExecutorRound_Finalizing() }
 
 // C07: the executor asks to be called again whenever it moved a batch along (obligation
 // C07.executor.progressComesWithARequeue of the Progressing round).
